@@ -203,6 +203,7 @@ def request(case, placement=None, raw=None):
             T.objs.append((r, r))
             T.kinds[1] = kind_bits(r)
             T.add("same=0:1")
+            T.add("same=1:0")       # `is` is symmetric (a mirrored comparison asks the other way round)
         cl, cr = type(l), type(r)
         T.add("cls=0:%d" % T.cls_id(cl))
         T.add("cls=1:%d" % T.cls_id(cr))
@@ -237,6 +238,7 @@ def request(case, placement=None, raw=None):
             T.objs.append((k, k))
             T.kinds[1] = kind_bits(k)
             T.add("same=0:1")
+            T.add("same=1:0")       # `is` is symmetric (a mirrored comparison asks the other way round)
         cc = type(c)
         T.add("cls=0:%d" % T.cls_id(cc))
         T.add("cls=1:%d" % T.cls_id(type(k)))
